@@ -103,8 +103,15 @@ func (x *Exec) setup(fn *ssa.Function, key string, ct *Contract) {
 	for _, h := range names {
 		x.emit(fmt.Sprintf("(declare-const %s@0 %s)", h, x.S.heaps[h]))
 		x.entry.Heaps[h] = Term{h + "@0", x.S.heaps[h]}
-		if strings.HasPrefix(h, "GH$lock$") {
-			// functions are entered holding no lock
+		locksInPre := false
+		for _, rq := range ct.Requires {
+			if strings.Contains(rq.Text, "locked(") {
+				locksInPre = true
+			}
+		}
+		if strings.HasPrefix(h, "GH$lock$") && !locksInPre {
+			// functions are entered holding no lock (unless their precondition speaks
+			// about lock state, as the *NoLock helpers' contracts do)
 			x.emit(fmt.Sprintf("(assert (= %s@0 ((as const %s) 0)))", h, x.S.heaps[h]))
 		}
 	}
@@ -321,7 +328,14 @@ func (x *Exec) frameObligations(fr *Frame, penv *SpecEnv, exit *State) {
 			pt := pointee(base.Typ)
 			su, _ := asStruct(pt)
 			idx, _ := findField(su, t.Name)
-			a := x.fieldAddr(base, pt, idx)
+			var a *Addr
+			if idx < 0 {
+				if a = x.ghostFieldAddr(pt, t.Name, base); a == nil {
+					panic(specErr("modifies %s: no such field", mt.Text))
+				}
+			} else {
+				a = x.fieldAddr(base, pt, idx)
+			}
 			hn, _, _ := x.rootHeap(a)
 			ex[hn] = append(ex[hn], a.Ref)
 		case EUnary:
